@@ -59,7 +59,7 @@ def _float_safe(vals):
 def gen(rng, tier):
     n_scen = {"quick": 300, "thorough": 2500, "search": 400}.get(tier, 300)
     for _ in range(n_scen):
-        B = rng.choice([1, 1000, 10 ** 6, SEC, 10 * SEC])
+        B = rng.choice([1, 1000, 10 ** 6, SEC, 10 * SEC, 1900 * 10 ** 6, 2 * SEC + 1, 1500 * 10 ** 6])   # incl. fractional back-offs above 1 s
         ready0 = 1 if rng.random() < 0.85 else 0
         lines = ["cfg via=rb backoff=%d ready=%d" % (B, ready0)]
         n = rng.choice([1, 2, 2, 3, 3, 4, 5, 6])
